@@ -51,6 +51,17 @@ type Ctx struct {
 	Sites    int             // call sites / constructs inspected
 	floors   []floor
 	brokenMu []string
+	// attr: obligations found in a private helper are keyed by the function the helper was
+	// split from (so a known finding or a breaker keeps its identity when code moves)
+	attr map[string]string
+}
+
+// Attribute makes obligations recorded for `helper` appear under `owner`.
+func (c *Ctx) Attribute(helper, owner interface{}) {
+	if c.attr == nil {
+		c.attr = map[string]string{}
+	}
+	c.attr[fnName(helper)] = fnName(owner)
 }
 
 type floor struct {
@@ -60,6 +71,10 @@ type floor struct {
 }
 
 func (c *Ctx) add(st Status, rule string, fn string, construct, pos, detail string) {
+	if o, ok := c.attr[fn]; ok {
+		detail = strings.TrimSpace(detail + " [in helper " + fn + "]")
+		fn = o
+	}
 	c.Obls = append(c.Obls, Obligation{Rule: rule, Func: fn, Construct: construct, Pos: pos, Status: st, Detail: detail})
 }
 
